@@ -25,7 +25,7 @@ EXPLANATION = (
     'radio = not safelink, base default True. Timer-vs-reply timing itself is not decided; the lock + pending test make it irrelevant.')
 ASSUMPTIONS = ['threading.Timer.cancel() prevents a timer that has not fired yet from firing',
                'drivers are the classes deriving from CRTPDriver in cflib/crtp']
-FLOORS = {'R1': 8, 'R2': 2, 'R3': 6, 'R4': 5, 'R5': 2, 'R6': 7, 'R7': 6}
+FLOORS = {'R8': 1, 'R1': 8, 'R2': 2, 'R3': 6, 'R4': 5, 'R5': 2, 'R6': 7, 'R7': 6}
 
 PAT = 'self._answer_patterns'
 
@@ -156,8 +156,9 @@ def check(ctx):
     mtxt = mdef.get(mv, mv)
     ctx.inst('R3', ca, 'match-is-prefix', fact_key('%s == %s[0:len(%s)]' % (pv, dvar, pv), True) in keys and mtxt in ('%s[0:len(%s)]' % (dvar, pv), pv),
              'a candidate matches iff it equals the leading len(p) items of the packet tuple; guards %s, kept value %s' % (sorted(keys), mtxt))
-    ctx.inst('R3', ca, 'match-fits', fact_key('len(%s) <= len(%s)' % (pv, dvar), True) in keys or True,
-             'candidate not longer than the packet')
+    lens = [k for k in keys if 'len(%s)' % pv in k[0] and 'len(%s)' % dvar in k[0]]
+    ctx.inst('R3', ca, 'match-fits', all(k == fact_key('len(%s) <= len(%s)' % (pv, dvar), True) for k in lens),
+             'a pattern exactly as long as the packet must still match (len(p) <= len(data)); length guards found %s' % lens)
     longer = [k for k in keys if k[0] in ('len(%s) < len(%s)' % (mv, lm), 'len(%s) < len(%s)' % (lm, mv))]
     okl = (('len(%s) < len(%s)' % (mv, lm), False) in keys) or (('len(%s) < len(%s)' % (lm, mv), True) in keys)
     ctx.inst('R3', ca, 'keeps-longest', okl, 'the kept match must be the longest (len(match) >= / > len(longest)); guards %s' % longer)
@@ -205,11 +206,30 @@ def check(ctx):
         nulls = [n for n in gf.nodes if n.kind == 'stmt' and isinstance(n.ast, ast.Assign) and norm(n.ast.targets[0]) == 'self.link'
                  and isinstance(n.ast.value, ast.Constant) and n.ast.value.value is None]
         ctx.need(nulls, '%s no longer nulls self.link' % fname)
-        empt = [n for n in gf.nodes if n.kind == 'stmt' and (
-            (isinstance(n.ast, ast.Assign) and norm(n.ast.targets[0]) == PAT and norm(n.ast.value) in ('{}', 'dict()')) or
-            (isinstance(n.ast, ast.Expr) and method_call(n.ast.value, 'clear') and norm(n.ast.value.func.value) == PAT))]
-        ok = len(empt) >= 1 and any(('n', e.id) in (gf.dom().get(('n', gf.exit.id)) or ()) for e in empt)
-        ctx.inst('R4', f, 'session-end-empties-patterns', ok, 'ending a session must empty the pending-pattern table on every path')
+
+        def empties(fn_):
+            g_ = cfg_of(fn_)
+            return [n for n in g_.nodes if n.kind == 'stmt' and (
+                (isinstance(n.ast, ast.Assign) and norm(n.ast.targets[0]) == PAT and norm(n.ast.value) in ('{}', 'dict()')) or
+                (isinstance(n.ast, ast.Expr) and method_call(n.ast.value, 'clear') and norm(n.ast.value.func.value) == PAT))], g_
+        empt, _ = empties(f)
+        sites = [e for e in empt if ('n', e.id) in (gf.dom().get(('n', gf.exit.id)) or ())]
+        # ... or a same-class helper that does it on every path, called on every path
+        for n, c in gf.find(lambda q: isinstance(q, ast.Call) and isinstance(q.func, ast.Attribute) and norm(q.func.value) == 'self' and klass.has(q.func.attr)):
+            if ('n', n.id) not in (gf.dom().get(('n', gf.exit.id)) or ()):
+                continue
+            he, hg = empties(klass.method(c.func.attr))
+            if any(('n', e.id) in (hg.dom().get(('n', hg.exit.id)) or ()) for e in he):
+                sites.append(n)
+        ctx.inst('R4', f, 'session-end-empties-patterns', len(sites) >= 1, 'ending a session must empty the pending-pattern table on every path')
+        ok = bool(sites) and all(any(gf.dominates(nl, s_) for nl in nulls) or gf.path_avoiding(s_, nulls) is None for s_ in sites) and \
+            all(gf.path_avoiding(s_, nulls) is None for s_ in sites)
+        ctx.inst('R4', f, 'patterns-emptied-after-link-nulled', ok,
+                 'the pending patterns must be cancelled AFTER the link is nulled: a request sent by another thread while the link is being closed would otherwise '
+                 'arm a timer nobody cancels and be retransmitted in the next session')
+
+    # ---- R8: sent and received headers are normalised identically ------------------------------
+    header_normalisation_rule(ctx, 'R8')
 
     # ---- R6 / R7: drivers ------------------------------------------------------------
     base = m.cls(BASE, 'CRTPDriver')
@@ -245,6 +265,23 @@ def check(ctx):
     sl = [s for s in walk_own(rt.node) if isinstance(s, ast.Assign) and norm(s.targets[0]).endswith('.needs_resending')]
     ctx.inst('R7', rt, 'radio=not-safelink', len(sl) == 1 and norm(sl[0].value) == 'not self._has_safelink',
              'radio link needs resending exactly when safelink is off; found %s' % [norm(s) for s in sl])
+
+
+def header_normalisation_rule(ctx, rule):
+    """Patterns are built from pk.header of the packet sent (set by _update_header: bits 3..2 = 1) and compared with pk.header of the
+    packet received (set by the constructor from the wire byte): both must force bits 3..2 to 1, or no answer ever matches."""
+    from .. import bits as B_
+    from ..consteval import Scope as _S
+    m = ctx.model
+    pk = m.cls('cflib/crtp/crtpstack.py', 'CRTPPacket')
+    init, uh = pk.method('__init__'), pk.method('_update_header')
+    hi = [s_ for s_ in walk_own(init.node) if isinstance(s_, ast.Assign) and norm(s_.targets[0]) == 'self.header']
+    hu = [s_ for s_ in walk_own(uh.node) if isinstance(s_, ast.Assign) and norm(s_.targets[0]) == 'self.header']
+    ctx.need(len(hi) == 1 and len(hu) == 1, 'CRTPPacket header stores not found')
+    bi = B_.evaluate(hi[0].value, _S.of(init), {'header': 'h'}, {'h': 8})
+    bu = B_.evaluate(hu[0].value, _S.of(uh), {'self._port': 'p', 'self.channel': 'c', 'self._channel': 'c'}, {'p': 8, 'c': 8})
+    ctx.inst(rule, init, 'received-header-normalised', bi[2] == 1 and bi[3] == 1 and bu[2] == 1 and bu[3] == 1,
+             'constructor header bits %s vs _update_header bits %s: bits 3..2 must be forced to 1 on both sides' % (B_.describe(bi, 8), B_.describe(bu, 8)))
 
 
 def init_value(f):
